@@ -223,6 +223,8 @@ def _simplifier(ctx, rep):
 
 
 def check_C05(ctx, rep):
+    small_models2.check_regexp_matcher(ctx, rep, ctx.prog.func('regexp_algorithms.regexp_accepts_word'))
+    rep.clauses_decided.append('regexp_accepts_word answers membership in the denoted language on 35 model expressions (nested stars, stars over expressions matching the empty word, concatenations with an empty-matching side, splits whose first match is a dead end) and all words over {a, b} up to length 3 (M22, finite model)')
     rep.clauses_decided += ['every rewrite path of regexp_simplify is a Kleene-algebra identity, never grows the expression and is applied after simplifying every child (M3, decided exactly)',
                             'matcher: concatenation splits k in [0,|w|], star takes a non-empty prefix and recurses on the same node, base cases, sum (M3m)',
                             'all six constructors handled in every structural recursion over Regexp (R-DISPATCH a)',
